@@ -441,7 +441,7 @@ Proof.
   destruct C1o1 as [C1 o1]. cbn [fst] in T1.
   destruct (q_owner q) as [d|p]; [exact T1|].
   destruct (nth_error (c_ops C1) p) as [[k al rid ph]|]; [|exact T1].
-  destruct ph as [rest i' h'| | |]; try exact T1.
+  destruct ph as [rest i' h'| | | |]; try exact T1.
   destruct (Nat.eqb i i' && Nat.eqb h h'); [|exact T1].
   destruct (if q_to q then RTimedOut else res_of oc);
     try (pose proof (op_known_wf rest pend C1 p rid T1) as X; destruct (op_known C1 p rid rest); exact X).
@@ -525,8 +525,13 @@ Lemma succ1_wf pend C p f : TInvC pend C -> TInvC pend (fst (succ1 C p f)).
 Proof.
   intro T. unfold succ1. destruct (nth_error (c_ops C) p) as [o|]; [|exact T].
   assert (TInvC pend (set_phase C p PDone)) as T1 by (eapply TInvC_same_core; [exact T | apply set_phase_core]).
-  destruct (o_kind o =? 1); [|exact T1]. destruct (closing (set_phase C p PDone)); [exact T1|].
-  pose proof (merge_wf pend _ (drop 4 f) (o_all o) T1) as X. destruct (merge (set_phase C p PDone) (drop 4 f) (o_all o)). exact X.
+  destruct (o_kind o =? 1).
+  - destruct (closing (set_phase C p PDone)); [exact T1|].
+    pose proof (merge_wf pend _ (drop 4 f) (o_all o) T1) as X. destruct (merge (set_phase C p PDone) (drop 4 f) (o_all o)). exact X.
+  - destruct (is_ltp (o_kind o)); [|exact T1]. destruct (closing (set_phase C p PDone)); [exact T1|].
+    pose proof (merge_wf pend _ (drop 4 f) false T1) as X. destruct (merge (set_phase C p PDone) (drop 4 f) false) as [C2 o2]. cbn [fst] in X.
+    destruct (missing (drop 4 f)); [|exact X]. unfold new_timer. cbn [fst].
+    eapply TInvC_same_core; [exact X|]. split; [reflexivity | eexists; reflexivity].
 Qed.
 
 Lemma ev_bc_wf pend C i e : is_make e = false -> TInvC pend C -> TInvC pend (fst (ev_bc C i e)).
@@ -538,12 +543,15 @@ Proof.
   set (X := match nth_error (c_ops C) p with
             | Some (mkOp _ _ _ (PBootConn a rest)) => let (C', o') := boot_next (set_boot C a KDead) p rest in (C', OBootCancel a :: o')
             | Some (mkOp _ _ _ (PBootReq a t rest)) => let (C', o') := boot_next C p rest in (C', OCancelTimer t :: OBootLose a :: o')
+            | Some (mkOp _ _ _ (PWait t)) => let (C', o') := op_fail C p RCancelled in (C', OCancelTimer t :: o')
             | _ => (C, []) end).
   assert (TInvC pend (fst X)) as T1.
   { unfold X. destruct (nth_error (c_ops C) p) as [[k al rid ph]|]; [|exact T]. destruct ph; try exact T.
     - pose proof (boot_next_core (set_boot C a KDead) p rest) as Y. destruct (boot_next (set_boot C a KDead) p rest). cbn [fst] in *.
       eapply TInvC_same_core; [|exact Y]. eapply TInvC_same_core; [exact T | apply set_boot_core].
     - pose proof (boot_next_core C p rest) as Y. destruct (boot_next C p rest). cbn [fst] in *.
+      eapply TInvC_same_core; [exact T | exact Y].
+    - pose proof (op_fail_core C p RCancelled) as Y. destruct (op_fail C p RCancelled). cbn [fst] in *.
       eapply TInvC_same_core; [exact T | exact Y]. }
   destruct X as [C1 o1]. cbn [fst] in T1. pose proof (IH pend C1 (S p) T1) as Y. destruct (cancel_boots C1 n (S p)). exact Y.
 Qed.
